@@ -1040,6 +1040,153 @@ func addReferrers(r *common.Rand, g *dag.Graph, k int) {
 	}
 }
 
+// ---------- small-scope exhaustive enumeration (thorough tier) ----------
+
+// shape of one manifest of an enumerated graph: image (config = blob 0) or index (listing
+// one or two earlier manifests), optional subject among the earlier manifests.
+type mshape struct {
+	index   bool
+	subject int   // node id or -1
+	lists   []int // index only
+}
+
+func buildSmall(shapes []mshape) *dag.Graph {
+	g := &dag.Graph{}
+	blob := []byte("small-scope-blob")
+	g.Nodes = append(g.Nodes, &dag.Node{ID: 0, Kind: dag.KConfig, Bytes: blob, Subject: -1, TwinOf: -1,
+		Desc: ocispec.Descriptor{MediaType: ocispec.MediaTypeImageConfig, Digest: digest.FromBytes(blob), Size: int64(len(blob))}})
+	for _, sh := range shapes {
+		id := len(g.Nodes)
+		nd := &dag.Node{ID: id, Subject: sh.subject, TwinOf: -1}
+		var subj *ocispec.Descriptor
+		if sh.subject >= 0 {
+			d := g.Nodes[sh.subject].Desc
+			subj = &d
+			nd.Succ = append(nd.Succ, sh.subject)
+		}
+		var body []byte
+		var mt string
+		ann := map[string]string{"verif.small": strconv.Itoa(id)}
+		if sh.index {
+			nd.Kind, mt = dag.KIndex, ocispec.MediaTypeImageIndex
+			var ix ocispec.Index
+			ix.SchemaVersion, ix.MediaType, ix.Subject, ix.Annotations = 2, mt, subj, ann
+			ix.Manifests = []ocispec.Descriptor{}
+			for _, m := range sh.lists {
+				ix.Manifests = append(ix.Manifests, g.Nodes[m].Desc)
+				nd.Succ = append(nd.Succ, m)
+			}
+			body, _ = json.Marshal(ix)
+		} else {
+			nd.Kind, mt = dag.KImage, ocispec.MediaTypeImageManifest
+			var m ocispec.Manifest
+			m.SchemaVersion, m.MediaType, m.Subject, m.Annotations = 2, mt, subj, ann
+			m.Config = g.Nodes[0].Desc
+			m.Layers = []ocispec.Descriptor{}
+			nd.Succ = append(nd.Succ, 0)
+			body, _ = json.Marshal(m)
+		}
+		nd.Bytes = body
+		nd.Desc = ocispec.Descriptor{MediaType: mt, Digest: digest.FromBytes(body), Size: int64(len(body))}
+		g.Nodes = append(g.Nodes, nd)
+	}
+	return g
+}
+
+// every shape the next manifest can take on top of k existing nodes (node 0 is the blob)
+func nextShapes(k int) []mshape {
+	var out []mshape
+	subjects := []int{-1}
+	for m := 1; m < k; m++ {
+		subjects = append(subjects, m)
+	}
+	for _, sj := range subjects {
+		out = append(out, mshape{subject: sj})
+	}
+	for a := 1; a < k; a++ {
+		for _, sj := range subjects {
+			out = append(out, mshape{index: true, subject: sj, lists: []int{a}})
+		}
+		for b := a + 1; b < k; b++ {
+			for _, sj := range subjects {
+				out = append(out, mshape{index: true, subject: sj, lists: []int{a, b}})
+			}
+		}
+	}
+	return out
+}
+
+func enumShapes(manifests int, cur []mshape, visit func([]mshape)) {
+	if len(cur) == manifests {
+		visit(cur)
+		return
+	}
+	for _, sh := range nextShapes(len(cur) + 1) {
+		enumShapes(manifests, append(append([]mshape(nil), cur...), sh), visit)
+	}
+}
+
+// historiesFor: push everything, tag the manifests of the subset (tag i-1 on manifest i),
+// then one of the Delete/GC arrangements.
+func smallHistory(n int, tagMask int, target int, variant int) []op {
+	var ops []op
+	for i := 0; i < n; i++ {
+		ops = append(ops, op{K: 'P', N: i})
+	}
+	for m := 1; m < n; m++ {
+		if tagMask&(1<<(m-1)) != 0 {
+			ops = append(ops, op{K: 'T', N: m, T: m - 1})
+		}
+	}
+	d := op{K: 'D', N: target}
+	gc := op{K: 'G'}
+	switch variant {
+	case 0:
+		ops = append(ops, d)
+	case 1:
+		ops = append(ops, gc, d, gc)
+	case 2:
+		ops = append(ops, d, gc)
+	default:
+		ops = append(ops, op{K: 'A', N: 0}, d, gc)
+	}
+	return ops
+}
+
+// exhaustive: all graphs of a blob and up to 3 manifests x all tag subsets x every delete
+// target x 4 Delete/GC arrangements; for 4 manifests every graph with a PRNG-chosen sample
+// of 8 (tags, target, arrangement) combinations.
+func exhaustive() {
+	saved := repeats
+	repeats = 1
+	defer func() { repeats = saved }()
+	for manifests := 1; manifests <= 4 && hangs < 2; manifests++ {
+		enumShapes(manifests, nil, func(shapes []mshape) {
+			if hangs >= 2 {
+				return
+			}
+			g := buildSmall(shapes)
+			n := len(g.Nodes)
+			run.Count(fmt.Sprintf("exhaustive:graphs-%d", n))
+			if manifests <= 3 {
+				for mask := 0; mask < 1<<manifests; mask++ {
+					for target := 0; target < n; target++ {
+						for v := 0; v < 4; v++ {
+							runCase(g, smallHistory(n, mask, target, v), 0)
+							run.Count("exhaustive:histories")
+						}
+					}
+				}
+				return
+			}
+			for k := 0; k < 8; k++ {
+				runCase(g, smallHistory(n, run.Rand.Intn(1<<manifests), run.Rand.Intn(n), run.Rand.Intn(4)), 0)
+				run.Count("exhaustive:histories")
+			}
+		})
+	}
+}
+
 func main() {
 	run = common.Start("C09")
 	run.Rule = "distinct (graph, history) pairs in which a Delete cascaded beyond its target or a GC removed at least one blob"
@@ -1063,7 +1210,13 @@ func main() {
 		return
 	}
 	repeats = run.Scale(2, 3)
+	if run.Thorough() {
+		exhaustive()
+	}
 	n := run.Scale(1600, 20000)
+	if os.Getenv("C09_ONLY_EXHAUSTIVE") != "" { // manual testing aid
+		n = 0
+	}
 	for i := 0; i < n && hangs < 2; i++ {
 		cs := run.Rand.U64()
 		g, ops := genCase(common.NewRand(cs))
